@@ -1,7 +1,7 @@
 (* C03 - report fidelity: decoding a report recovers the aggregated data.  Property theorems only.
    Modelled at the abstract-document level (Model/Reports.v): coveralls(+) coverage array, branch quadruples and functions, covdir coverage array and
-   tree, Cobertura class lines / conditions, HTML file rows, Markdown row counts, files.  The serialisation of the
-   documents (serde_json, quick-xml, Tera) and the formats not listed (lcov bytes, ActiveData-ETL, Cobertura methods,
+   tree, Cobertura class lines / conditions, HTML file rows, Markdown row counts, ActiveData-ETL records, files.  The serialisation of the
+   documents (serde_json, quick-xml, Tera) and the formats not listed (lcov bytes, Cobertura methods,
    Markdown ranges) are validated on the real outputs by independent Python readers. *)
 From Grcov Require Import Model.Stats Model.Reports Proofs.StatsFacts Proofs.ReportsFacts.
 
@@ -79,6 +79,58 @@ Theorem C03_markdown_counts : forall p rel c,
   md_file r = rel /\ md_total r = N.of_nat (size (c_lines c)) /\
   md_covered r = covered_lines (map_to_list (c_lines c)) /\ md_covered r <= md_total r.
 Proof. exact md_row_counts. Qed.
+
+(* ActiveData-ETL.  The file record: covered / uncovered are exactly the instrumented lines with a positive / zero count,
+   each once *)
+Theorem C03_ade_file_lines : forall (rel : name) (c : cov),
+  let F := encode_ade_file rel c in
+  af_name F = rel /\
+  (forall l, l ∈ ap_covered (af_file F) <-> exists n, c_lines c !! l = Some n /\ 0 < n) /\
+  (forall l, l ∈ ap_uncovered (af_file F) <-> c_lines c !! l = Some 0) /\
+  NoDup (ap_covered (af_file F)) /\ NoDup (ap_uncovered (af_file F)).
+Proof. exact ade_file_lines_lem. Qed.
+(* one method record per function of the file, names preserved, each carrying that function's lists *)
+Theorem C03_ade_functions : forall (rel : name) (c : cov),
+  let F := encode_ade_file rel c in
+  map fst (af_methods F) = map fst (map_to_list (c_funcs c)) /\ NoDup (map fst (af_methods F)) /\
+  (forall nm m, (nm, m) ∈ af_methods F <-> exists f, c_funcs c !! nm = Some f /\ m = ade_method c f).
+Proof. exact ade_functions_lem. Qed.
+(* a function extends from its start line to the least function start that is strictly greater (functions sharing a start
+   line share the range), or past the last instrumented line when no function starts later *)
+Theorem C03_ade_func_end : forall (c : cov) (f : func),
+  let fe := ade_fend c f in
+  (forall nm' f', c_funcs c !! nm' = Some f' -> f_start f < f_start f' -> fe <= f_start f') /\
+  ((fe = ade_end c /\ forall nm' f', c_funcs c !! nm' = Some f' -> f_start f' <= f_start f) \/
+   (exists nm' f', c_funcs c !! nm' = Some f' /\ f_start f' = fe /\ f_start f < fe)).
+Proof. exact ade_func_end_lem. Qed.
+(* the method's lists are exactly the file's covered / uncovered lines inside [start, end of the function) *)
+Theorem C03_ade_method_range : forall (c : cov) (f : func) (l : N),
+  (l ∈ ap_covered (ade_method c f) <-> (exists n, c_lines c !! l = Some n /\ 0 < n) /\ f_start f <= l /\ l < ade_fend c f) /\
+  (l ∈ ap_uncovered (ade_method c f) <-> c_lines c !! l = Some 0 /\ f_start f <= l /\ l < ade_fend c f).
+Proof. exact ade_method_range_lem. Qed.
+(* every line of the file is an orphan or in some method's list; an orphan is in no method's list; method lists hold file lines *)
+Theorem C03_ade_cover : forall (rel : name) (c : cov) (l : N),
+  let F := encode_ade_file rel c in
+  (l ∈ ap_covered (af_file F) -> l ∈ ap_covered (af_orphan F) \/ exists m, m ∈ af_methods F /\ l ∈ ap_covered m.2) /\
+  (l ∈ ap_uncovered (af_file F) -> l ∈ ap_uncovered (af_orphan F) \/ exists m, m ∈ af_methods F /\ l ∈ ap_uncovered m.2) /\
+  (l ∈ ap_covered (af_orphan F) <-> l ∈ ap_covered (af_file F) /\ forall m, m ∈ af_methods F -> l ∉ ap_covered m.2) /\
+  (l ∈ ap_uncovered (af_orphan F) <-> l ∈ ap_uncovered (af_file F) /\ forall m, m ∈ af_methods F -> l ∉ ap_uncovered m.2) /\
+  (forall m, m ∈ af_methods F -> (l ∈ ap_covered m.2 -> l ∈ ap_covered (af_file F)) /\ (l ∈ ap_uncovered m.2 -> l ∈ ap_uncovered (af_file F))).
+Proof. exact ade_cover_lem. Qed.
+(* non-vacuity: two functions on one start line (they share the range 2..4), one starting at 5, one past the last line
+   (empty), and line 1 before every function (orphan) *)
+Definition ex_ade_cov : cov :=
+  mkCov {[1 := 5; 2 := 0; 3 := 0; 5 := 7; 6 := 1]} ∅
+        {[ [102] := mkFunc 2 true; [103] := mkFunc 2 false; [104] := mkFunc 5 true; [122] := mkFunc 9 true ]}.
+Example C03_ex_ade :
+  let F := encode_ade_file [97] ex_ade_cov in
+  (ap_covered (af_file F), ap_uncovered (af_file F)) = ([1; 5; 6], [2; 3]) /\
+  (ap_covered (af_orphan F), ap_uncovered (af_orphan F)) = ([1], []) /\
+  ade_fend ex_ade_cov (mkFunc 2 true) = 5 /\ ade_fend ex_ade_cov (mkFunc 5 true) = 9 /\ ade_fend ex_ade_cov (mkFunc 9 true) = 7 /\
+  ap_uncovered (ade_method ex_ade_cov (mkFunc 2 true)) = [2; 3] /\ ap_uncovered (ade_method ex_ade_cov (mkFunc 2 false)) = [2; 3] /\
+  ap_covered (ade_method ex_ade_cov (mkFunc 5 true)) = [5; 6] /\
+  ade_method ex_ade_cov (mkFunc 9 true) = mkAdePart [] [] 0 0 /\ length (af_methods F) = 4%nat.
+Proof. vm_compute. repeat split. Qed.
 
 (* files: exactly the relative paths, in order *)
 Theorem C03_files_exact : forall rs : list (name * cov), encode_files rs = map fst rs.
